@@ -29,6 +29,6 @@ Extraction "model.ml"
   full_match COORDINATE_RE ALGEBRAIC_RE
   cmove_eqb squares bits_of popcount
   (* decidable hypotheses of the property theorems, evaluated on every scenario node *)
-  invb move_okb counters_okb gen_shapeb fitsb gen_wfb position_likeb legal_materialb soundb soundWb
+  invb move_okb counters_okb gen_shapeb fitsb gen_wfb position_likeb legal_materialb soundb soundWb soundCb
   (* the magic-table model with the entries of the current build *)
   magic_rook magic_bishop entries_valid ROOK_ENTRIES BISHOP_ENTRIES.
